@@ -188,11 +188,7 @@ func (fr *frame) unop(instr *ssa.UnOp, x Value) Value {
 		return p.chanRecv(x.(*Chan), instr.CommaOk, instr.Type())
 	case token.MUL:
 		if ref, ok := x.(symElemRef); ok {
-			res := ref.elems[len(ref.elems)-1].(*Term)
-			for i := len(ref.elems) - 2; i >= 0; i-- {
-				res = tt.Ite(tt.Eq(ref.idx, tt.BVC(64, uint64(i))), ref.elems[i].(*Term), res)
-			}
-			return res
+			return p.iteTable(ref.idx, ref.elems)
 		}
 		addr := x.(*Value)
 		if addr == nil {
@@ -926,4 +922,39 @@ func (p *Path) selectOp(instr *ssa.Select, fr *frame) Value {
 		}
 	}
 	return r
+}
+
+
+// iteTable builds elems[idx] as an ite chain over runs of equal consecutive elements
+// (lookup tables such as utf8.first have few distinct runs), idx already bounds-checked.
+func (p *Path) iteTable(idx *Term, elems []Value) *Term {
+	tt := p.w.tt
+	n := len(elems)
+	type run struct {
+		lo, hi int
+		v      *Term
+	}
+	var runs []run
+	for i := 0; i < n; i++ {
+		t := elems[i].(*Term)
+		if len(runs) > 0 && runs[len(runs)-1].v == t {
+			runs[len(runs)-1].hi = i
+		} else {
+			runs = append(runs, run{i, i, t})
+		}
+	}
+	res := runs[len(runs)-1].v
+	for k := len(runs) - 2; k >= 0; k-- {
+		r := runs[k]
+		var c *Term
+		if r.lo == r.hi {
+			c = tt.Eq(idx, tt.BVC(64, uint64(r.lo)))
+		} else if r.lo == 0 {
+			c = tt.ULE(idx, tt.BVC(64, uint64(r.hi)))
+		} else {
+			c = tt.And(tt.ULE(tt.BVC(64, uint64(r.lo)), idx), tt.ULE(idx, tt.BVC(64, uint64(r.hi))))
+		}
+		res = tt.Ite(c, r.v, res)
+	}
+	return res
 }
